@@ -730,20 +730,12 @@ def run(ctx):
                        "it is written unprefixed and re-parses into no namespace (witness: attribute a{urn:u1} without "
                        "prefix); normalizeDocument() gives it a prefix",
                        {"request": WITNESS["F52"], "impl": W["F52"][:800], "what": "attribute namespace lost"})
-    a = parse_doc_answer(W["F53"])
-    known_or_violation("F53", a.get("norm") == "ok" and a.get("ser") == "ok" and (a.get("reparse") != "ok" or a.get("res") == "0"),
-                       "DOMNormalizer::namespaceFixUp gives an attribute the prefix InScopeNamespaces::getPrefix(uri) "
-                       "returns even when that is the empty (default) prefix: the attribute becomes unprefixed and "
-                       "re-parses into no namespace, or collides with an attribute of the same local name (witness: "
-                       "r{urn:u1} unprefixed with attribute a{urn:u1} without prefix, normalizeDocument, serialise)",
-                       {"request": WITNESS["F53"], "impl": W["F53"][:800], "what": "attribute given the default prefix"})
-    a = parse_doc_answer(W["F54"])
-    known_or_violation("F54", "NoSuchElementException" in a.get("norm", ""),
-                       "DOMNormalizer::InScopeNamespaces::Scope::addOrChangeBinding keeps one prefix per URI; when two "
-                       "prefixes bound to the same URI are both rebound, the second removeKey(oldUri) throws "
-                       "NoSuchElementException out of normalizeDocument(), leaving the tree half fixed (witness: "
-                       "xmlns:p = xmlns:q = urn:u3 on the root, both rebound on the child)",
-                       {"request": WITNESS["F54"], "impl": W["F54"][:800], "what": "normalizeDocument throws"})
+    nsgood = lambda a: (a.get("norm") == "ok" and a.get("ser") == "ok" and a.get("reparse") == "ok" and a.get("res") == "1"
+                        and a.get("eq") in ("1", "nsdecl") and a.get("idem") in ("1", "reordered"))
+    fixed_or_violation("F53", "normalizeDocument(): an attribute in the namespace that is bound as default namespace is given "
+                       "the empty prefix and loses its namespace; repair: fixes/C12-normalizer-scope.patch", nsgood)
+    fixed_or_violation("F54", "normalizeDocument() throws NoSuchElementException when two prefixes bound to one URI are both "
+                       "rebound; repair: fixes/C12-normalizer-scope.patch", nsgood)
     a = parse_doc_answer(W["F46"])
     known_or_violation("F46", a.get("ser") == "ok" and (a.get("reparse") != "ok" or a.get("eq") == "0"),
                        "the Windows-1252 / IBM037 / IBM1047 / IBM1140 to-tables contain best-fit entries (U+FF01..U+FF5E "
@@ -1127,4 +1119,11 @@ def run(ctx):
                             "control characters, strings around kTmpBufSize; a request is non-trivial when it contains a "
                             "markup, white-space or non-ASCII unit; document: a case is non-trivial when the tree has more "
                             "than one node; distinct by request text")
+    ctx.coverage["rule"] += ("; namespace fix-up: %d API-built trees (namespaceURI/prefix set, xmlns attributes present or "
+                             "missing, prefixes rebound at inner levels, attributes in namespaces of outer bindings with "
+                             "their own / another / no prefix, default namespace undeclared and redeclared) x {DOMLSSerializer's "
+                             "own fix-up, normalizeDocument() with namespaces then serialise}: well-formed, every element/"
+                             "attribute keeps its (namespaceURI, localName), isEqualNode up to xmlns attributes, second "
+                             "serialisation byte-identical (or a fixed point when only the attribute order differs)"
+                             % (len(nlines) // 2))
     ctx.coverage["exhaustive"] = False
